@@ -64,6 +64,9 @@ class OptCase:
                     kw["idx_constrained"] = L.reshape(2, -1) if (L.size % 2 == 0 and L.size >= 4 and self.B.shape[0] % 2) else L.reshape(1, -1)
                 elif rc == "list":
                     kw["idx_constrained"] = [int(x) for x in L]
+                elif rc == "dup":
+                    # two overlapping windows chained with np.concatenate: some indices occur twice (still the same SET of sensors)
+                    kw["idx_constrained"] = np.concatenate([L, L[: max(1, L.size // 2)]])
             if self.meta.get("all_sensors_head") and isinstance(kw.get("all_sensors"), np.ndarray) and kw.get("n_sensors"):
                 # only the head of the unconstrained ranking is handed over (all the rule ever reads of it when its first N entries
                 # already decide the counts)
